@@ -186,7 +186,7 @@ def ensure(thorough=False):
         # prune old fact dirs (keep the 3 most recent)
         base = os.path.join(WORK, 'facts')
         dirs = sorted((os.path.getmtime(os.path.join(base, d)), d) for d in os.listdir(base))
-        for _, d in dirs[:-3]:
+        for _, d in dirs[:-8]:
             if d != h:
                 shutil.rmtree(os.path.join(base, d), ignore_errors=True)
         os.utime(outdir)
